@@ -14,7 +14,7 @@ import (
 func init() {
 	register("C14", &monitor{
 		run: runC14,
-		rule: "every directive in 32 flag subsets x 7 width forms x 7 precision forms x 58 verbs (52 ASCII letters + 6 others), under the standard fmt.State and under redact's printer as fmt.State: " +
+		rule: "every directive in 32 flag subsets x 7 width forms x 7 precision forms x 62 verbs (52 ASCII letters + 10 others, four of which share their low byte or low 16 bits with a letter), under the standard fmt.State and under redact's printer as fmt.State: " +
 			"(a) MakeFormat round trip through a capturing Formatter, (b) under fmt, Safe(x)/Unsafe(x)/a forwarding Formatter print exactly like x for 14 operand kinds; " +
 			"non-trivial = the directive carries a flag, width or precision and reached the formatter; distinct = distinct (directive, state implementation) pairs",
 	})
@@ -150,7 +150,8 @@ func c14verbs() []rune {
 	for r := 'A'; r <= 'Z'; r++ {
 		v = append(v, r)
 	}
-	return append(v, '!', '_', '~', 0xe9, 0x2039, 0x1f6d1)
+	// non-ASCII verbs, among them ones that share their low byte or low 16 bits with a letter
+	return append(v, '!', '_', '~', 0xe9, 0x2039, 0x1f6d1, 0x173, 0x176, 0x164, 0x10073)
 }
 
 func c14operands() []interface{} {
@@ -301,6 +302,6 @@ func runC14(c *Ctx) {
 		}
 	})
 	c.res.Exhaustive = true
-	c.res.Bound = "32 flag subsets x widths {absent,*=0,1,7,12,1000,*=-7} x precisions {absent,'.',0,1,5,*=3,*=-1} x 58 verbs; 21 operand kinds x 4 wrappers"
+	c.res.Bound = "32 flag subsets x widths {absent,*=0,1,7,12,1000,*=-7} x precisions {absent,'.',0,1,5,*=3,*=-1} x 62 verbs; 21 operand kinds x 4 wrappers"
 	c.res.Assumptions = []string{"go1.23.5 fmt is the reference fmt.State", "a present width of 0 and an absent width are the same width (fmt has no syntax for the former other than '*')"}
 }
